@@ -33,6 +33,7 @@ structure I (s : State) : Prop where
   winv : WInv s
   qinv : QInv s
   tsig : TsigOK s
+  log : PtrLogOK s
 
 /-- what a state transformation must keep for the structural invariants to carry over -/
 structure Keeps (s s' : State) : Prop where
@@ -43,6 +44,15 @@ structure Keeps (s s' : State) : Prop where
   qn : s'.qname = s.qname
   ow : s'.mostRecentOwner = s.mostRecentOwner
   rd : s'.mostRecentNameInRdata = s.mostRecentNameInRdata
+  gp : s'.gPtrs = s.gPtrs
+
+theorem ptrLog_keeps {s s' : State} (k : Keeps s s') (h : PtrLogOK s) : PtrLogOK s' := by
+  intro x hx
+  rw [k.gp] at hx
+  obtain ⟨h1, h2, h3, h4, h5, ls, h6⟩ := h x hx
+  refine ⟨h1, by rw [k.cursor]; exact h2, h3, h4, by rw [k.gl]; exact h5, ls, ?_⟩
+  have := k.stored s.cursor (Nat.le_refl _) _ _ h6
+  unfold StoredAt; rw [k.cursor]; exact this
 
 theorem den_keeps {s s' : State} (k : Keeps s s') {p : Prior} {n : WName} (h : Den s p n) : Den s' p n := by
   obtain ⟨h1, h2, h3, ls, h4, h5⟩ := h
@@ -63,7 +73,7 @@ theorem i_keeps {s s' : State} (h : I s) (k : Keeps s s') (hinv : Inv s') (ht : 
   have w := h.winv
   refine ⟨hinv, ⟨hinv.hdr, hinv.cur_av, Nat.le_trans hinv.av_lim hinv.lim_size, by rw [k.gl]; exact w.g12, ?_,
     by rw [k.qn]; exact anchorOK_keeps k w.qn, by rw [k.ow]; exact anchorOK_keeps k w.ow,
-    by rw [k.rd]; exact anchorOK_keeps k w.rd⟩, ⟨?_, ?_⟩, ht⟩
+    by rw [k.rd]; exact anchorOK_keeps k w.rd⟩, ⟨?_, ?_⟩, ht, ptrLog_keeps k h.log⟩
   · intro g hg
     rw [k.gl] at hg
     obtain ⟨ls, hl⟩ := w.labs g hg
@@ -84,7 +94,7 @@ theorem i_keeps {s s' : State} (h : I s) (k : Keeps s s') (hinv : Inv s') (ht : 
 /-- octets changed only inside the 12-octet header -/
 theorem keeps_header {s : State} (h : WInv s) (o : Bytes) (hsz : o.size = s.octets.size)
     (hpre : ∀ i, 12 ≤ i → o[i]? = s.octets[i]?) : Keeps s { s with octets := o } := by
-  refine ⟨?_, rfl, rfl, rfl, rfl, rfl, rfl⟩
+  refine ⟨?_, rfl, rfl, rfl, rfl, rfl, rfl, rfl⟩
   intro c hc p ls hn
   exact nameAt_frame (lo := 12) hn (fun _ hx => hx) (fun x hx => h.g12 x hx) (fun i hi _ => hpre i hi)
     (Nat.le_refl _)
@@ -93,8 +103,9 @@ theorem keeps_header {s : State} (h : WInv s) (o : Bytes) (hsz : o.size = s.octe
 theorem keeps_same {s s' : State} (ho : s'.octets = s.octets) (hc : s'.cursor = s.cursor)
     (hr : s'.rrStart = s.rrStart) (hg : s'.gLabels = s.gLabels) (hq : s'.qname = s.qname)
     (how : s'.mostRecentOwner = s.mostRecentOwner)
-    (hrd : s'.mostRecentNameInRdata = s.mostRecentNameInRdata) : Keeps s s' := by
-  refine ⟨?_, hc, hr, hg, hq, how, hrd⟩
+    (hrd : s'.mostRecentNameInRdata = s.mostRecentNameInRdata) (hgp : s'.gPtrs = s.gPtrs := by rfl) :
+    Keeps s s' := by
+  refine ⟨?_, hc, hr, hg, hq, how, hrd, hgp⟩
   intro c _ p ls hn
   have : GL s' = GL s := by unfold GL; rw [hg]
   rw [this, ho]; exact hn
@@ -103,8 +114,9 @@ theorem keeps_same {s s' : State} (ho : s'.octets = s.octets) (hc : s'.cursor = 
 theorem keeps_header' {s s' : State} (h : WInv s) (hpre : ∀ i, 12 ≤ i → s'.octets[i]? = s.octets[i]?)
     (hc : s'.cursor = s.cursor) (hr : s'.rrStart = s.rrStart) (hg : s'.gLabels = s.gLabels)
     (hq : s'.qname = s.qname) (how : s'.mostRecentOwner = s.mostRecentOwner)
-    (hrd : s'.mostRecentNameInRdata = s.mostRecentNameInRdata) : Keeps s s' := by
-  refine ⟨?_, hc, hr, hg, hq, how, hrd⟩
+    (hrd : s'.mostRecentNameInRdata = s.mostRecentNameInRdata) (hgp : s'.gPtrs = s.gPtrs := by rfl) :
+    Keeps s s' := by
+  refine ⟨?_, hc, hr, hg, hq, how, hrd, hgp⟩
   intro c _ p ls hn
   have : GL s' = GL s := by unfold GL; rw [hg]
   rw [this]
@@ -339,7 +351,7 @@ theorem safe_setTsig (m : TsigMode) (rr : TsigRr) (s : State) (hI : I s)
 
 /-- a failed call leaves a state that is the same as far as names are concerned -/
 theorem keeps_of_same {s s' : State} (e : Same s s') : Keeps s s' := by
-  refine ⟨?_, e.cursor, e.rrStart, e.gLabels, e.qname, e.owner, e.inRdata⟩
+  refine ⟨?_, e.cursor, e.rrStart, e.gLabels, e.qname, e.owner, e.inRdata, e.gPtrs⟩
   intro c hc p ls hn
   have : GL s' = GL s := by unfold GL; rw [e.gLabels]
   rw [this]
@@ -376,14 +388,18 @@ theorem qinv_ext {s s' : State} (h : QInv s) (hi : Inv s) (e : Ext s s') (hq : s
     exact ⟨ls, nameAt_frame (lo := 0) hl (fun x hx => e.glab x hx) (fun _ _ => Nat.zero_le _)
       (fun i _ hi' => e.pre i (by omega)) (Nat.le_refl _), hlen⟩
 
-theorem recSt_init {s : State} (h : WInv s) :
+theorem recSt_init {s : State} (h : WInv s) (hl : PtrLogOK s) :
     RecSt (s.hv = some []) s s [] [] s.mostRecentOwner none := by
-  refine ⟨h, Ext.refl s, ?_, (fun n hn => by cases hn), rfl, (fun n hn => by cases hn), rfl⟩
+  refine ⟨h, Ext.refl s, ?_, (fun n hn => by cases hn), rfl, (fun n hn => by cases hn), rfl, hl⟩
   intro t v hv
   rw [t] at hv
   cases hv
   exact ⟨rfl, fun i p hp => by simp at hp⟩
 
+
+theorem changeSection_gPtrs (sec : RrSection) (s : State) : (changeSection sec s).2.gPtrs = s.gPtrs := by
+  unfold changeSection
+  split <;> rfl
 
 theorem changeSection_spec (sec : RrSection) (s : State) :
     (changeSection sec s).1 ≠ .panic ∧ (changeSection sec s).2.hv = s.hv ∧
@@ -401,6 +417,10 @@ theorem den_setCount (sec : RrSection) (n : Nat) (s : State) (p : Prior) (m : WN
 
 theorem winv_setCount (sec : RrSection) (n : Nat) {s : State} (h : WInv s) : WInv (setCount sec n s).2 := by
   cases sec <;> exact ⟨h.c12, h.cur_av, h.av_size, h.g12, h.labs, h.qn, h.ow, h.rd⟩
+
+theorem ptrLog_setCount (sec : RrSection) (n : Nat) {s : State} (h : PtrLogOK s) :
+    PtrLogOK (setCount sec n s).2 := by
+  cases sec <;> exact h
 
 theorem qinv_setCount (sec : RrSection) (n : Nat) {s : State} (h : QInv s) : QInv (setCount sec n s).2 := by
   cases sec <;> exact ⟨h.labs, h.qn⟩
@@ -430,8 +450,8 @@ theorem addRrOp_full (sec : RrSection) (hint : Hint) (owner : WName) (ty cls ttl
   have hfr1 := frame_changeSection sec s
   have h1 : RecSt (s.hv = some []) s (changeSection sec s).2 [] [] s.mostRecentOwner none := by
     have w1 : WInv (changeSection sec s).2 := winv_ext hI.winv hfr1 c7 c3 c4 c5
-    have r0 := recSt_init hI.winv
-    exact recSt_step r0 hfr1 w1 c2 c5 c4 c3
+    have r0 := recSt_init hI.winv hI.log
+    exact recSt_step r0 hfr1 w1 c2 c5 c4 c3 (changeSection_gPtrs sec s)
   have hh1 : Writer.HintOK (changeSection sec s).2 hint owner := hintOK_ext hh hfr1 c3 c4 c5 c6
   obtain ⟨hnp2, hok2⟩ := sp_addRr (track := s.hv = some []) (s0 := s) (names := []) hint owner ty cls
     (ttlFrom ttl) rd hwf (changeSection sec s).2 ⟨[], _, none, h1, hh1⟩
@@ -473,7 +493,7 @@ theorem addRrOp_full (sec : RrSection) (hint : Hint) (owner : WName) (ty cls ttl
             obtain ⟨f1, f2, f3, f4, f5, f6⟩ := setCount_fields sec (getCount sec s2 + 1) s2
             refine ⟨by simp, ⟨hinv, winv_setCount _ _ hrec.winv,
               qinv_setCount _ _ (qinv_ext hI.qinv hI.inv hrec.ext hrec.qn),
-              tsigOK_of_eq hI.tsig (by rw [f5, hrec.ext.tsig])⟩, ⟨by rw [f1]; exact hrec.qn,
+              tsigOK_of_eq hI.tsig (by rw [f5, hrec.ext.tsig]), ptrLog_setCount _ _ hrec.log⟩, ⟨by rw [f1]; exact hrec.qn,
               fun q m hd => (den_setCount _ _ _ _ _).mpr (den_ext hrec.ext hd)⟩,
               fun _ => ⟨s2, p, _, hrec, rfl⟩⟩
 
@@ -492,8 +512,8 @@ theorem addRrsetOp_full (sec : RrSection) (hint : Hint) (owner : WName) (ty cls 
   have hfr1 := frame_changeSection sec s
   have h1 : RecSt (s.hv = some []) s (changeSection sec s).2 [] [] s.mostRecentOwner none := by
     have w1 : WInv (changeSection sec s).2 := winv_ext hI.winv hfr1 c7 c3 c4 c5
-    have r0 := recSt_init hI.winv
-    exact recSt_step r0 hfr1 w1 c2 c5 c4 c3
+    have r0 := recSt_init hI.winv hI.log
+    exact recSt_step r0 hfr1 w1 c2 c5 c4 c3 (changeSection_gPtrs sec s)
   have hh1 : Writer.HintOK (changeSection sec s).2 hint owner := hintOK_ext hh hfr1 c3 c4 c5 c6
   obtain ⟨hnp2, hok2⟩ := sp_addRrset (track := s.hv = some []) (s0 := s) owner ty cls (ttlFrom ttl) hwf rds
     hint 0 [] none (changeSection sec s).2 ⟨[], _, h1, hh1⟩
@@ -539,7 +559,7 @@ theorem addRrsetOp_full (sec : RrSection) (hint : Hint) (owner : WName) (ty cls 
               obtain ⟨f1, f2, f3, f4, f5, f6⟩ := setCount_fields sec (getCount sec s2 + n) s2
               refine ⟨by simp, ⟨hinv, winv_setCount _ _ hrec.winv,
                 qinv_setCount _ _ (qinv_ext hI.qinv hI.inv hrec.ext hrec.qn),
-                tsigOK_of_eq hI.tsig (by rw [f5, hrec.ext.tsig])⟩, ⟨by rw [f1]; exact hrec.qn,
+                tsigOK_of_eq hI.tsig (by rw [f5, hrec.ext.tsig]), ptrLog_setCount _ _ hrec.log⟩, ⟨by rw [f1]; exact hrec.qn,
                 fun q m hd => (den_setCount _ _ _ _ _).mpr (den_ext hrec.ext hd)⟩,
                 fun _ => ⟨s2, loc, p, on, _, hrec, hon, rfl⟩⟩
 
@@ -549,7 +569,8 @@ theorem addQuestionBody_spec (qn : WName) (qt qc : Nat) (s : State) (hw : WInv s
     ((addQuestionBody qn qt qc s).1 = .ok () → WInv (addQuestionBody qn qt qc s).2 ∧
       (s.qdcount = 0 → ∀ q, (addQuestionBody qn qt qc s).2.qname = some q →
         Den (addQuestionBody qn qt qc s).2 q qn) ∧
-      (s.qdcount ≠ 0 → (addQuestionBody qn qt qc s).2.qname = s.qname)) := by
+      (s.qdcount ≠ 0 → (addQuestionBody qn qt qc s).2.qname = s.qname) ∧
+      (PtrLogOK s → PtrLogOK (addQuestionBody qn qt qc s).2)) := by
   unfold addQuestionBody
   simp only [M.bind_apply, setCtx, M.modify_apply]
   have e1 := ext_setCtx s .qname
@@ -611,11 +632,19 @@ theorem addQuestionBody_spec (qn : WName) (qt qc : Nat) (s : State) (hw : WInv s
           have w6 : WInv (pushed (pushed s4 (u16be qt)) (u16be qc)) := winv_push w5 (u16be qc) hf2
           have e56 : Ext (pushed s4 (u16be qt)) (pushed (pushed s4 (u16be qt)) (u16be qc)) :=
             ext_push _ (u16be qc) (by have := w5.cur_av; omega)
-          refine ⟨by simp, fun _ => ⟨w6, ?_, ?_⟩⟩
+          refine ⟨by simp, fun _ => ⟨w6, ?_, ?_, ?_⟩⟩
           · intro h0 q hq'
             exact den_ext (Ext.trans e45 e56) (hq4.1 h0 q hq')
           · intro h0
             exact hq4.2 h0
+          · intro hl
+            have l2 := hs.log p rfl (ptrLog_ext hl e1 rfl)
+            have hgp4 : s4.gPtrs = s2.gPtrs := by
+              rw [← hs4]
+              by_cases h0 : ({ s2 with gCtx := NameCtx.none } : State).qdcount = 0
+              · rw [if_pos h0]
+              · rw [if_neg h0]
+            exact ptrLog_ext (ptrLog_ext (ptrLog_ext l2 e24 hgp4) e45 rfl) e56 rfl
         · rw [if_neg hf2]; exact ⟨by simp, fun h => by cases h⟩
       · rw [if_neg hf1]; exact ⟨by simp, fun h => by cases h⟩
 
@@ -651,12 +680,12 @@ theorem addQuestion_full (qn : WName) (qt qc : Nat) (s : State) (hI : I s) (hwf 
           exact ⟨by simp, i_same hI hsame, fun _ _ h => den_keeps (keeps_of_same hsame) h, fun h => by cases h⟩
         | ok u =>
           simp only [] at hstep ⊢
-          obtain ⟨hw3, hq0, hq1⟩ := hb2 rfl
+          obtain ⟨hw3, hq0, hq1, hlg⟩ := hb2 rfl
           have hinv := hstep.1 hI.inv
           have hrr : s3.rrStart = s.rrStart := hfr.rrStart
           refine ⟨by simp, ⟨hinv, ⟨hw3.c12, hw3.cur_av, hw3.av_size, hw3.g12, hw3.labs, hw3.qn, hw3.ow, hw3.rd⟩,
             ⟨fun g hg _ => hw3.labs g hg, fun p hp => (hw3.qn p hp).2.2⟩,
-            tsigOK_of_eq hI.tsig hfr.tsig⟩, fun p n hd => den_ext hfr hd, ?_⟩
+            tsigOK_of_eq hI.tsig hfr.tsig, hlg hI.log⟩, fun p n hd => den_ext hfr hd, ?_⟩
           intro _ _ hqd q hq'
           exact hq0 hqd q hq'
 
@@ -665,12 +694,12 @@ theorem addQuestion_full (qn : WName) (qt qc : Nat) (s : State) (hI : I s) (hwf 
 
 /-- a record of a type without name components, written without a hint into enough room, succeeds -/
 theorem addRr_nameless_ok (owner : WName) (ty cls ttl : Nat) (rd : List UInt8) (s : State)
-    (hw : WInv s) (hwf : owner.WF) (hct : componentTypes cls ty = some [])
+    (hw : WInv s) (hl : PtrLogOK s) (hwf : owner.WF) (hct : componentTypes cls ty = some [])
     (hroom : s.cursor + rrLen owner rd ≤ s.available) :
     ∃ s', addRr .none owner ty cls ttl rd s = (.ok (), s') ∧ WInv s' ∧ Ext s s' ∧
-      s'.cursor ≤ s.cursor + rrLen owner rd := by
+      s'.cursor ≤ s.cursor + rrLen owner rd ∧ PtrLogOK s' := by
   obtain ⟨hnp, hok⟩ := sp_addRr (track := s.hv = some []) (s0 := s) (names := []) .none owner ty cls ttl rd hwf s
-    ⟨[], _, none, recSt_init hw, trivial⟩
+    ⟨[], _, none, recSt_init hw hl, trivial⟩
   have hot := onlyTrunc_addRr_nameless owner ty cls ttl rd hct s
   obtain ⟨hb1, hb2⟩ := bud_addRr .none owner ty cls ttl rd s
   cases har : addRr .none owner ty cls ttl rd s with
@@ -685,7 +714,7 @@ theorem addRr_nameless_ok (owner : WName) (ty cls ttl : Nat) (rd : List UInt8) (
       omega
     | ok u =>
       obtain ⟨p, hrec⟩ := hok u s' har
-      exact ⟨s', rfl, hrec.winv, hrec.ext, (hb2 u s' har).1⟩
+      exact ⟨s', rfl, hrec.winv, hrec.ext, (hb2 u s' har).1, hrec.log⟩
 
 theorem root_wf : WName.root.WF := by
   constructor
@@ -732,14 +761,14 @@ theorem winv_raise {s : State} (h : WInv s) (k : Nat) (hk : s.available + k ≤ 
     (ts : Option Tsig) : WInv { s with available := s.available + k, tsig := ts } :=
   ⟨h.c12, by have := h.cur_av; show s.cursor ≤ s.available + k; omega, hk, h.g12, h.labs, h.qn, h.ow, h.rd⟩
 
-theorem finishOpt_spec (s : State) (hw : WInv s) (k : Nat)
+theorem finishOpt_spec (s : State) (hw : WInv s) (hl : PtrLogOK s) (k : Nat)
     (hroom : ∀ e, s.edns = some e → s.available + Gen.OPT_RECORD_SIZE + k ≤ s.octets.size)
     (hk : s.available + k ≤ s.octets.size) :
     ∃ s', finishOpt s.edns s = (.ok (), s') ∧ WInv s' ∧ s'.available + k ≤ s'.octets.size ∧
-      s'.tsig = s.tsig := by
+      s'.tsig = s.tsig ∧ PtrLogOK s' := by
   unfold finishOpt
   cases he : s.edns with
-  | none => exact ⟨s, rfl, hw, hk, rfl⟩
+  | none => exact ⟨s, rfl, hw, hk, rfl, hl⟩
   | some e =>
     simp only [M.bind_apply, M.modify_apply]
     have h11 : Gen.OPT_RECORD_SIZE = 11 := rfl
@@ -748,12 +777,12 @@ theorem finishOpt_spec (s : State) (hw : WInv s) (k : Nat)
       have := winv_raise hw Gen.OPT_RECORD_SIZE (by omega) s.tsig
       exact this
     have hlen : rrLen WName.root [] = 11 := by decide
-    obtain ⟨s', h1, h2, h3, h4⟩ := addRr_nameless_ok WName.root T_OPT e.payload
-      ((e.upper * 16777216) % 4294967296) [] _ w1 root_wf (componentTypes_opt _)
+    obtain ⟨s', h1, h2, h3, h4, h5⟩ := addRr_nameless_ok WName.root T_OPT e.payload
+      ((e.upper * 16777216) % 4294967296) [] _ w1 hl root_wf (componentTypes_opt _)
       (by show s.cursor + rrLen WName.root [] ≤ s.available + Gen.OPT_RECORD_SIZE; have := hw.cur_av; omega)
     unfold unwrap
     rw [h1]
-    refine ⟨s', rfl, h2, ?_, h3.tsig⟩
+    refine ⟨s', rfl, h2, ?_, h3.tsig, h5⟩
     rw [h3.available, h3.size]
     show s.available + Gen.OPT_RECORD_SIZE + k ≤ s.octets.size
     exact hr
@@ -768,7 +797,7 @@ theorem tsigRdata_length (rr : TsigRr) (alg : WName) (mac : List UInt8) (h6 : rr
   · simp [hb, this, h6, h6']; omega
   · simp [hb, this, h6]; omega
 
-theorem finishTsig_tail (s : State) (hw : WInv s) (ts : Tsig) (mac : Option (List UInt8))
+theorem finishTsig_tail (s : State) (hw : WInv s) (hl : PtrLogOK s) (ts : Tsig) (mac : Option (List UInt8))
     (hkey : ts.rr.keyName.WF) (ht6 : ts.rr.timeSigned.length = 6) (hs6 : ts.rr.serverTime.length = 6)
     (hroom : s.available + ts.reservedLen ≤ s.octets.size)
     (hlen : (mac.getD []).length + (tsigAlgName ts.mode).wire.length + 26 +
@@ -783,8 +812,8 @@ theorem finishTsig_tail (s : State) (hw : WInv s) (ts : Tsig) (mac : Option (Lis
   have w3 : WInv { s with tsig := none, available := s.available + ts.reservedLen } :=
     winv_raise hw ts.reservedLen hroom none
   have hrl := tsigRdata_length ts.rr (tsigAlgName ts.mode) (mac.getD []) ht6 hs6
-  obtain ⟨s', h1, _, _, _⟩ := addRr_nameless_ok ts.rr.keyName T_TSIG QC_ANY (ttlFrom 0)
-    (tsigRdata ts.rr (tsigAlgName ts.mode) (mac.getD [])) _ w3 hkey (componentTypes_tsig _)
+  obtain ⟨s', h1, _, _, _, _⟩ := addRr_nameless_ok ts.rr.keyName T_TSIG QC_ANY (ttlFrom 0)
+    (tsigRdata ts.rr (tsigAlgName ts.mode) (mac.getD [])) _ w3 hl hkey (componentTypes_tsig _)
     (by
       show s.cursor + rrLen ts.rr.keyName _ ≤ s.available + ts.reservedLen
       unfold rrLen
@@ -796,7 +825,7 @@ theorem finishTsig_tail (s : State) (hw : WInv s) (ts : Tsig) (mac : Option (Lis
   exact ⟨_, _, rfl⟩
 
 theorem finishTsig_spec (macFn : Tsig → List UInt8 → List UInt8) (hmac : MacLenOK macFn) (s : State)
-    (hw : WInv s) (ts : Tsig) (hts : s.tsig = some ts)
+    (hw : WInv s) (hl : PtrLogOK s) (ts : Tsig) (hts : s.tsig = some ts)
     (hok : ts.reservedLen = reservedLenOf ts.mode ts.rr ∧ ts.rr.keyName.WF ∧
       (tsigAlgName ts.mode).WF ∧ ts.rr.timeSigned.length = 6 ∧ ts.rr.serverTime.length = 6)
     (hroom : s.available + ts.reservedLen ≤ s.octets.size) :
@@ -813,7 +842,7 @@ theorem finishTsig_spec (macFn : Tsig → List UInt8 → List UInt8) (hmac : Mac
   | request a k =>
     rw [hmode] at hm
     simp only []
-    obtain ⟨len, s', h⟩ := finishTsig_tail s hw ts (some (macFn ts (s.octets.extract 0 s.cursor).toList))
+    obtain ⟨len, s', h⟩ := finishTsig_tail s hw hl ts (some (macFn ts (s.octets.extract 0 s.cursor).toList))
       hkey ht6 hs6 hroom (by
         rw [hres, hmode]
         simp only [reservedLenOf, signedLen, unsignedLen, tsigAlgName, Option.getD_some] at hm ⊢
@@ -823,7 +852,7 @@ theorem finishTsig_spec (macFn : Tsig → List UInt8 → List UInt8) (hmac : Mac
   | response a m k =>
     rw [hmode] at hm
     simp only []
-    obtain ⟨len, s', h⟩ := finishTsig_tail s hw ts (some (macFn ts (s.octets.extract 0 s.cursor).toList))
+    obtain ⟨len, s', h⟩ := finishTsig_tail s hw hl ts (some (macFn ts (s.octets.extract 0 s.cursor).toList))
       hkey ht6 hs6 hroom (by
         rw [hres, hmode]
         simp only [reservedLenOf, signedLen, unsignedLen, tsigAlgName, Option.getD_some] at hm ⊢
@@ -833,7 +862,7 @@ theorem finishTsig_spec (macFn : Tsig → List UInt8 → List UInt8) (hmac : Mac
   | subsequent a m k =>
     rw [hmode] at hm
     simp only []
-    obtain ⟨len, s', h⟩ := finishTsig_tail s hw ts (some (macFn ts (s.octets.extract 0 s.cursor).toList))
+    obtain ⟨len, s', h⟩ := finishTsig_tail s hw hl ts (some (macFn ts (s.octets.extract 0 s.cursor).toList))
       hkey ht6 hs6 hroom (by
         rw [hres, hmode]
         simp only [reservedLenOf, signedLen, unsignedLen, tsigAlgName, Option.getD_some] at hm ⊢
@@ -842,7 +871,7 @@ theorem finishTsig_spec (macFn : Tsig → List UInt8 → List UInt8) (hmac : Mac
     exact ⟨_, _, h⟩
   | unsigned n =>
     simp only []
-    obtain ⟨len, s', h⟩ := finishTsig_tail s hw ts none hkey ht6 hs6 hroom (by
+    obtain ⟨len, s', h⟩ := finishTsig_tail s hw hl ts none hkey ht6 hs6 hroom (by
         rw [hres, hmode]
         simp only [reservedLenOf, unsignedLen, tsigAlgName, Option.getD_none, List.length_nil]
         omega)
@@ -863,7 +892,7 @@ theorem finishWithMac_ok (macFn : Tsig → List UInt8 → List UInt8) (hmac : Ma
   have hres := inv_reserved' hI.inv
   have h2 := hI.inv.av_lim; have h3 := hI.inv.lim_size
   have h11 : Gen.OPT_RECORD_SIZE = 11 := rfl
-  obtain ⟨s1, hf1, hw1, hroom1, hts1⟩ := finishOpt_spec { s with octets := o } hIA.winv (tsigReserved s.tsig)
+  obtain ⟨s1, hf1, hw1, hroom1, hts1, hl1⟩ := finishOpt_spec { s with octets := o } hIA.winv hIA.log (tsigReserved s.tsig)
     (by
       intro e he
       show s.available + Gen.OPT_RECORD_SIZE + tsigReserved s.tsig ≤ o.size
@@ -886,7 +915,7 @@ theorem finishWithMac_ok (macFn : Tsig → List UInt8 → List UInt8) (hmac : Ma
     simp only [M.bind_apply, M.gets_apply, M.pure_apply]
     exact ⟨_, _, rfl⟩
   | some ts =>
-    have := finishTsig_spec macFn hmac s1 hw1 ts (by rw [hts1', hts]) (hI.tsig ts hts)
+    have := finishTsig_spec macFn hmac s1 hw1 hl1 ts (by rw [hts1', hts]) (hI.tsig ts hts)
       (by rw [hts] at hroom1; exact hroom1)
     rw [hts1', hts] at this
     exact this
@@ -903,7 +932,7 @@ theorem finish_ok (macFn : Tsig → List UInt8 → List UInt8) (hmac : MacLenOK 
 
 theorem i_hv (s : State) (v : Option HV) (h : I s) : I { s with hv := v } :=
   ⟨inv_hv h.inv v, ⟨h.winv.c12, h.winv.cur_av, h.winv.av_size, h.winv.g12, h.winv.labs, h.winv.qn,
-    h.winv.ow, h.winv.rd⟩, ⟨h.qinv.labs, h.qinv.qn⟩, h.tsig⟩
+    h.winv.ow, h.winv.rd⟩, ⟨h.qinv.labs, h.qinv.qn⟩, h.tsig, h.log⟩
 
 theorem new_i (buf : Bytes) (limit : Nat) (s : State) (h : Writer.new buf limit = .ok s) : I s := by
   have hinv := new_inv buf limit s h
@@ -914,7 +943,7 @@ theorem new_i (buf : Bytes) (limit : Nat) (s : State) (h : Writer.new buf limit 
   · have hs := Out.ok.inj h
     subst hs
     refine ⟨hinv, ⟨hinv.hdr, hinv.cur_av, Nat.le_trans hinv.av_lim hinv.lim_size, ?_, ?_, ?_, ?_, ?_⟩,
-      ⟨?_, ?_⟩, ?_⟩
+      ⟨?_, ?_⟩, ?_, fun x hx => by cases hx⟩
     · intro g hg; cases hg
     · intro g hg; cases hg
     · intro p hp; cases hp
@@ -950,7 +979,7 @@ theorem clearRrs_i (s : State) (h : I s) : I (clearRrs s).2 := by
     obtain ⟨ls, hl, hlen⟩ := h.qinv.qn p hp
     exact ⟨ls, conv _ _ hl, hlen⟩
   refine ⟨hinv, ⟨h.inv.rr_lo, by show s.rrStart ≤ s.available; have := h.inv.cur_av; omega,
-    h.winv.av_size, ?_, hlabs, ?_, (fun p hp => by cases hp), (fun p hp => by cases hp)⟩, ⟨?_, hqn⟩, h.tsig⟩
+    h.winv.av_size, ?_, hlabs, ?_, (fun p hp => by cases hp), (fun p hp => by cases hp)⟩, ⟨?_, hqn⟩, h.tsig, ?_⟩
   · intro g hg
     simp only [List.mem_filter] at hg
     exact h.winv.g12 g hg.1
@@ -958,6 +987,14 @@ theorem clearRrs_i (s : State) (h : I s) : I (clearRrs s).2 := by
     exact ⟨(h.winv.qn p hp).1, (h.winv.qn p hp).2.1, hqn p hp⟩
   · intro g hg _
     exact hlabs g hg
+  · intro x hx
+    simp only [List.mem_filter, decide_eq_true_eq] at hx
+    obtain ⟨h1, h2, h3, h4, h5, ls, h6⟩ := h.log x hx.1
+    have hlt : x.target < s.rrStart := by omega
+    have hmem : x.target ∈ s.gLabels.filter (· < s.rrStart) := by
+      simp only [List.mem_filter, decide_eq_true_eq]; exact ⟨h5, hlt⟩
+    obtain ⟨ls', hl'⟩ := hlabs x.target hmem
+    exact ⟨h1, hx.2, h3, h4, hmem, ls', hl'⟩
 
 
 theorem call_safe (c : Call) (s : State) (hI : I s) (hp : c.Pre Den s) :
